@@ -558,25 +558,32 @@ func newEnvironment(userVars map[string]string, newId uid.ID) (env *Environment,
 					the.EventWriterWithTopic(topic.Run).WriteEventWithTimestamp(runEvent, runStartCompletionTime)
 
 				} else if e.Event == "STOP_ACTIVITY" {
-					runEndCompletionTime := time.Now()
-					runEndCompletionTimeStr := strconv.FormatInt(runEndCompletionTime.UnixMilli(), 10)
-					env.workflow.SetRuntimeVar("run_end_completion_time_ms", runEndCompletionTimeStr)
+					endCompletionTime, ok := env.workflow.GetUserVars().Get("run_end_completion_time_ms")
+					if ok && endCompletionTime == "" {
+						runEndCompletionTime := time.Now()
+						runEndCompletionTimeStr := strconv.FormatInt(runEndCompletionTime.UnixMilli(), 10)
+						env.workflow.SetRuntimeVar("run_end_completion_time_ms", runEndCompletionTimeStr)
 
-					runEvent := &pb.Ev_RunEvent{
-						EnvironmentId:    envId.String(),
-						RunNumber:        env.GetCurrentRunNumber(),
-						State:            env.Sm.Current(),
-						Error:            "",
-						Transition:       e.Event,
-						TransitionStatus: pb.OpStatus_DONE_OK,
-						LastRequestUser:  env.GetLastRequestUser(),
-					}
-					if e.Err != nil {
-						runEvent.Error = e.Err.Error()
-						runEvent.TransitionStatus = pb.OpStatus_DONE_ERROR
-					}
+						runEvent := &pb.Ev_RunEvent{
+							EnvironmentId:    envId.String(),
+							RunNumber:        env.GetCurrentRunNumber(),
+							State:            env.Sm.Current(),
+							Error:            "",
+							Transition:       e.Event,
+							TransitionStatus: pb.OpStatus_DONE_OK,
+							LastRequestUser:  env.GetLastRequestUser(),
+						}
+						if e.Err != nil {
+							runEvent.Error = e.Err.Error()
+							runEvent.TransitionStatus = pb.OpStatus_DONE_ERROR
+						}
 
-					the.EventWriterWithTopic(topic.Run).WriteEventWithTimestamp(runEvent, runEndCompletionTime)
+						the.EventWriterWithTopic(topic.Run).WriteEventWithTimestamp(runEvent, runEndCompletionTime)
+
+					} else {
+						log.WithField("partition", envId.String()).
+							Debug("O2 End Completion time already set before after_STOP_ACTIVITY")
+					}
 
 					// Ensure the auto stop timer is stopped (important for stop transitions NOT triggered by the timer itself)
 					env.invalidateAutoStopTransition()
